@@ -11,7 +11,8 @@ FC = ["-Z", "function-contracts"]
 VOUCHED_TIME = KaniUnit(
     crate="vouched_time",
     attachments=[("vouched_time/src/lib.rs", os.path.join(KC, "vouched_time.rs"), ""),
-                 ("vouched_time/src/atomic_base_time.rs", os.path.join(KC, "atomic_base_time.rs"), "atomic_base_time")],
+                 ("vouched_time/src/atomic_base_time.rs", os.path.join(KC, "atomic_base_time.rs"), "atomic_base_time"),
+                 ("vouched_time/src/nfs_voucher.rs", os.path.join(KC, "nfs_voucher.rs"), "nfs_voucher")],
     kani_args=["-Z", "stubbing"],
     params={"quick": {"W": 4, "UW": 7}, "thorough": {"W": 6, "UW": 9}},
     harnesses=[
@@ -52,6 +53,11 @@ VOUCHED_TIME = KaniUnit(
                 "never reaches the blocking Mutex::lock, lock held or free, poison flag (where the code asks for it through is_poisoned) "
                 "arbitrary; cannot succeed while another writer holds the lock",
                 kind="proof", timeout=900, mod="atomic_base_time"),
+        Harness("c18_get_base_time_unlocked_never_locks", ["C18"], "nfs_voucher::get_base_time_unlocked",
+                "on the process-wide BASE_TIME, for `now` on both sides of every staleness threshold (0, 2990/2991 ms, 59900/59901 ms, "
+                "an hour, decades ahead, before the base): never reaches the blocking Mutex::lock, completes in one pass of the reader's "
+                "loop, never fails", kind="bounded", bound="initial BASE_TIME state (no update made); `now` over 8 listed offsets from the base",
+                timeout=900, mod="nfs_voucher", unwind_is_property_in="AtomicBaseTime::snapshot"),
         Harness("c14_real_voucher_pins_parameters", ["C14"], "VouchedTime::check",
                 "with the real raffle code: a voucher for the base under the crate's parameters is accepted; one for "
                 "another value, another base, or other parameters is rejected", kind="proof", timeout=600),
@@ -334,7 +340,7 @@ NATIVE_UNITS = {
                     "now() applies the same rule to the current clock: with a provider that answers with a (really vouched) base time at "
                     "a chosen distance from the clock reading it was handed, now() accepts exactly the distances inside the window and the "
                     "value reports exactly that clock reading (real clock; exact at nanosecond resolution, so no flakiness on correct code)",
-                    "40 readings of the real clock x 9 distances (window edges +-1 ms, 0)")],
+                    "40 readings of the real clock x 9 distances (window edges +-1 ms, 0), each accepted distance also with a voucher for another value and one made under other parameters")],
         params={"quick": {}, "thorough": {}}),
     "byte_arena": NativeUnit("byte_arena", "owning_iovec",
         [("owning_iovec/src/byte_arena/mod.rs", os.path.join(KN, "byte_arena.rs"))],
